@@ -885,7 +885,7 @@ pub fn parts() -> Vec<Box<dyn PartDyn>> {
         Box::new(Part::<Case> {
             name: "e2e",
             rule: "steady sessions (1-3 channels, 0-2 consumers each, optional return listener, optional get in flight) followed by 1-24 server frames from an alphabet with a production per dispatch arm: valid deliveries/returns/get answers, heartbeats on any channel, all 64 methods on channel 0 / open / never-opened / 65535, stray headers (sizes incl. 2^31..2^64-1) and bodies, deliver-starts for known/unknown tags, duplicate ConsumeOk, server cancel, channel close, connection close, blocked/unblocked; oracle: a reference reader gives the compliant deliveries and the first violation; safety always (no panic, no abort, observed messages = prefix of the compliant reading, calls return), and when the first irregularity is one the property names the exact error / hard-error code on the wire; non-trivial = first violation with the collector mid-content or after >= 3 valid frames; distinct by case hash",
-            cases: |t| t.pick(1500, 40_000),
+            cases: |t| t.pick(4000, 60_000),
             threads: 16,
             strategy: strat,
             exec,
@@ -896,7 +896,7 @@ pub fn parts() -> Vec<Box<dyn PartDyn>> {
         Box::new(Part::<ProbeCase> {
             name: "collector",
             rule: "arbitrary call sequences on the content collector (valid messages mixed with stray method/header/body calls, announced sizes 0..2^64-1) through the CollectorProbe hook vs. the reference collector: same accept / complete / FrameUnexpected at every step, no panic, no abort; non-trivial = a violation while content is outstanding or a multi-frame body; distinct by case hash",
-            cases: |t| t.pick(100_000, 4_000_000),
+            cases: |t| t.pick(200_000, 5_000_000),
             threads: 16,
             strategy: |_t| strat_arbitrary(),
             exec: exec_probe,
